@@ -83,6 +83,9 @@ impl Property for C09 {
             .prop_map(|(doc, signers, path, wire, flips, unrelated_seed)| Spec { doc, signers, path, wire, flips, unrelated_seed })
             .boxed()
     }
+    fn concurrent() -> bool {
+        true
+    }
     fn check(spec: &Spec, env: &mut Env) -> Outcome {
         let mut o = Outcome::new();
         let meta = spec.doc.to_lib();
